@@ -19,7 +19,7 @@ Inductive jtree :=
    comparisons with a literal (Func.func_step); [drops] = the metric name is dropped *)
 | JMap (drops : bool) (f : Z -> option Z) (t : jtree)
 (* count [by|without] (labels) (t): the reused table of Agg.v *)
-| JCount (without : bool) (grouping : list N) (t : jtree).
+| JCount (conv : nat -> Z) (without : bool) (grouping : list N) (t : jtree).   (* conv: the count as a value *)
 
 (* Series() of a node *)
 Fixpoint jseries (t : jtree) : list labels :=
@@ -27,23 +27,23 @@ Fixpoint jseries (t : jtree) : list labels :=
   | JLeaf ls _ _ => ls
   | JJoin p l r => op_series (jp_on p) (jp_ml p) (jp_incl p) (jp_card p) (jp_bool p) (jp_drops p) (jseries l) (jseries r)
   | JMap drops _ t => map (fun m => if drops then del_name m else m) (jseries t)
-  | JCount without grouping t => groups without grouping (jseries t)
+  | JCount _ without grouping t => groups without grouping (jseries t)
   end.
 
 Definition sv_of (ts : Z) (vec : list (nat * Z)) : stepvec := mkSV ts (map fst vec) (map snd vec).
 
 (* toVector: the groups that have a value, by group ID *)
-Definition emit_ids (ngroups : nat) (tbl : list (acc nat)) : list (nat * Z) :=
-  flat_map (fun g => let a := nth g tbl (dacc) in if a_has nat a then [(g, Z.of_nat (a_st nat a))] else []) (seq 0 ngroups).
+Definition emit_ids (conv : nat -> Z) (ngroups : nat) (tbl : list (acc nat)) : list (nat * Z) :=
+  flat_map (fun g => let a := nth g tbl (dacc) in if a_has nat a then [(g, conv (a_st nat a))] else []) (seq 0 ngroups).
 
 (* hashAggregate.Next over a stream, the table living across steps *)
-Fixpoint count_stream (without : bool) (grouping : list N) (slabels : list labels) (tbl : list (acc nat))
+Fixpoint count_stream (conv : nat -> Z) (without : bool) (grouping : list N) (slabels : list labels) (tbl : list (acc nat))
          (stream : list (Z * list (nat * Z))) : list (Z * list (nat * Z)) :=
   match stream with
   | [] => []
   | (ts, vec) :: r =>
       let tbl' := count_step without grouping slabels tbl (sv_of ts vec) in
-      (ts, emit_ids (length (groups without grouping slabels)) tbl') :: count_stream without grouping slabels tbl' r
+      (ts, emit_ids conv (length (groups without grouping slabels)) tbl') :: count_stream conv without grouping slabels tbl' r
   end.
 
 Fixpoint zip_vecs (L R : list (Z * list (nat * Z))) : list (Z * list (nat * Z) * list (nat * Z)) :=
@@ -71,9 +71,9 @@ Fixpoint jrun (cf : cfg) (w : window) (t : jtree) : list (Z * list (nat * Z)) + 
       | inl strm => inl (map (fun tv => (fst tv, func_step Z f (snd tv))) strm)
       | inr e => inr e
       end
-  | JCount without grouping t =>
+  | JCount conv without grouping t =>
       match jrun cf w t with
-      | inl strm => inl (count_stream without grouping (jseries t)
+      | inl strm => inl (count_stream conv without grouping (jseries t)
                                       (repeat dacc (length (groups without grouping (jseries t)))) strm)
       | inr e => inr e
       end
@@ -99,11 +99,11 @@ Fixpoint jref (lb : Z) (t : jtree) (ts : Z) : option (list (labels * Z)) :=
                                             end) smp)
       | None => None
       end
-  | JCount without grouping t =>
+  | JCount conv without grouping t =>
       match jref lb t ts with
       | Some smp =>
           let present := map (fun mv => group_labels without grouping (fst mv)) smp in
-          Some (map (fun k => (k, Z.of_nat (count_occ labels_dec present k))) (nodup labels_dec present))
+          Some (map (fun k => (k, conv (count_occ labels_dec present k))) (nodup labels_dec present))
       | None => None
       end
   end.
@@ -116,7 +116,7 @@ Fixpoint jok (t : jtree) : Prop :=
       one_side_unique (jp_on p) (jp_ml p) (one_side_series (jp_card p) (jseries l) (jseries r)) /\
       (is_one_to_one (jp_card p) = true -> jp_incl p = [])
   | JMap _ _ t => jok t
-  | JCount _ _ t => jok t
+  | JCount _ _ _ t => jok t
   end.
 
 Lemma nth_map_labels (g : labels -> labels) (l : list labels) i : (i < length l)%nat ->
@@ -136,10 +136,10 @@ Qed.
 
 (* ---- the count node ----------------------------------------------------------- *)
 
-Lemma count_stream_fresh without grouping slabels : forall (stream : list (Z * list (nat * Z))) tbl,
+Lemma count_stream_fresh conv without grouping slabels : forall (stream : list (Z * list (nat * Z))) tbl,
   length tbl = length (groups without grouping slabels) ->
-  count_stream without grouping slabels tbl stream =
-  map (fun tv => (fst tv, emit_ids (length (groups without grouping slabels))
+  count_stream conv without grouping slabels tbl stream =
+  map (fun tv => (fst tv, emit_ids conv (length (groups without grouping slabels))
                             (count_step without grouping slabels (repeat dacc (length (groups without grouping slabels)))
                                         (sv_of (fst tv) (snd tv))))) stream.
 Proof.
@@ -150,7 +150,7 @@ Proof.
   rewrite E. f_equal. apply IH. rewrite count_step_length, repeat_length. reflexivity.
 Qed.
 
-Lemma emit_ids_fst n tbl : map fst (emit_ids n tbl) = filter (fun g => a_has nat (nth g tbl dacc)) (seq 0 n).
+Lemma emit_ids_fst conv n tbl : map fst (emit_ids conv n tbl) = filter (fun g => a_has nat (nth g tbl dacc)) (seq 0 n).
 Proof.
   unfold emit_ids. induction (seq 0 n) as [|g l IH]; simpl; [reflexivity|].
   rewrite map_app, IH. destruct (a_has nat (nth g tbl dacc)); reflexivity.
@@ -208,7 +208,7 @@ Theorem jtree_matches_reference cf w :
     forall ts, good_vec (length (jseries t)) (f ts) /\
                forall R, jref (c_lookback cf) t ts = Some R -> Permutation (labelled Z (jseries t) (f ts)) R.
 Proof.
-  intros HN HB Hlb Hw Hstart. induction t as [ls sers off|p l IHl r IHr|drops f t IH|without grouping t IH]; intros Hok.
+  intros HN HB Hlb Hw Hstart. induction t as [ls sers off|p l IHl r IHr|drops f t IH|conv without grouping t IH]; intros Hok.
   - destruct Hok as [Hlen Hs]. exists (fun ts => vec_of (select_step (c_lookback cf) off sers ts)). split.
     + cbn [jrun]. rewrite (run_covers_grid cf w (PSelect sers off) HN HB Hlb Hw Hs). simpl denote. rewrite map_map.
       f_equal. apply map_ext. intros ts. rewrite select_step_T. reflexivity.
@@ -279,7 +279,7 @@ Proof.
   - destruct (IH Hok) as [g [Eg Pg]].
     set (sl := jseries t) in *. set (ng := length (groups without grouping sl)).
     set (fresh := repeat dacc ng).
-    exists (fun ts => emit_ids ng (count_step without grouping sl fresh (sv_of ts (g ts)))). split.
+    exists (fun ts => emit_ids conv ng (count_step without grouping sl fresh (sv_of ts (g ts)))). split.
     + cbn [jrun]. rewrite Eg. fold sl. rewrite count_stream_fresh by apply repeat_length. rewrite map_map. reflexivity.
     + intros ts. destruct (Pg ts) as [[G1 G2] PG].
       set (ids := map fst (g ts)).
@@ -344,7 +344,7 @@ Proof.
               { unfold members_of. apply filter_In. split; [assumption|apply Nat.eqb_refl]. }
               assert (Hkey : nth gi (groups without grouping sl) [] = k).
               { rewrite <- Hki. symmetry. apply (member_iff_key without grouping sl); [exact Hg|exact Hil|reflexivity]. }
-              exists (gi, Z.of_nat (length (members_of without grouping sl gi ids))). split.
+              exists (gi, conv (length (members_of without grouping sl gi ids))). split.
               ** simpl. simpl jseries. fold sl. rewrite Hkey. f_equal. f_equal.
                  rewrite <- (count_occ_perm _ _ _ Pk). unfold keysE. rewrite <- Hkey.
                  apply (members_length without grouping sl gi ids Hg). apply Forall_forall. assumption.
